@@ -265,7 +265,7 @@ func rulePepTable(p *Prog, r *Report) {
 		q2 := c2.queryPair(e.Compare, c2.tiedExcept(ov2), []string{})
 		key2 := "pypi: release decides after the epoch and before the phases"
 		stageSeen := false
-		for k := range c2.terms {
+		for _, k := range c2.termKeys() {
 			if strings.HasPrefix(k, "stage:") && strings.Contains(k, "("+pf.release+")") {
 				stageSeen = true
 			}
@@ -387,7 +387,8 @@ func rulePepTable(p *Prog, r *Report) {
 	}
 	// derived spellings of the phase (ToLower(.prerelease), ...)
 	var phaseKeys []string
-	for k, ti := range c.terms {
+	for _, k := range c.termKeys() {
+		ti := c.terms[k]
 		if k == pf.pre || len(ti.base) == 1 && ti.base[0] == pf.pre && isStringType(ti.t) {
 			phaseKeys = append(phaseKeys, k)
 		}
